@@ -150,6 +150,12 @@ pub trait Check: Sync + Send {
     fn nondeterministic(&self) -> bool {
         false
     }
+    /// true if a failing fixed case is reported at once (replay, evidence, exit 1) instead of after
+    /// the other fixed cases running in parallel have finished: for checks whose cases take minutes
+    /// (a defect can also make the remaining ones take hours)
+    fn fail_fast_fixed(&self) -> bool {
+        false
+    }
     /// watchdog limit for one generated case
     fn case_timeout_s(&self) -> u64 {
         60
@@ -710,6 +716,27 @@ pub fn run_property(check: &dyn Check, cfg: &RunConfig) -> i32 {
                             }
                             Ok(Err(f)) => {
                                 let mut g = failed.lock().unwrap();
+                                if g.is_none() && check.fail_fast_fixed() {
+                                    // report from here and leave the process: the other workers
+                                    // cannot be interrupted
+                                    let known = load_known_findings();
+                                    if !known.iter().any(|k| k.property == check.id() && k.status == "known" && k.kind == f.kind) {
+                                        let path = write_replay(check.id(), "fixed", cfg.seed, tier_name(cfg.thorough), case, &f, None);
+                                        eprintln!(
+                                            "violation of {}: {}\n  expected: {}\n  observed: {}\n  panic: {:?}\n  case: {}",
+                                            check.id(), f.what, f.expected, f.observed, f.panic, case.to_json()
+                                        );
+                                        println!("VIOLATION property={} replay={}", check.id(), path.display());
+                                        local.absorb(case, &CaseStats::default());
+                                        let wall = t0.elapsed().as_secs_f64();
+                                        write_evidence(check, cfg, &local, wall, 1, Value::Null);
+                                        println!(
+                                            "SUMMARY property={} tier={} cases={} nontrivial={} violations=1 wall_s={:.1}",
+                                            check.id(), tier_name(cfg.thorough), local.evaluations, local.distinct_nontrivial.len(), wall
+                                        );
+                                        std::process::exit(1);
+                                    }
+                                }
                                 if g.is_none() {
                                     *g = Some((case.clone(), f));
                                 }
